@@ -7,6 +7,7 @@ rounded, same cyclic order, direction reversed iff requested; lines and quadrati
 segment-wise distance bound for converted cubics, composites keep references / flatten to depth 1,
 maxp recomputed from the reloaded data.
 """
+import copy
 import io
 import math
 import traceback
@@ -90,7 +91,13 @@ def gen(rng, idx, tier):
         # a source that went through an in-place conversion once carries cu2qu's marker in its
         # font or layer lib: a compile that is NOT in place has to treat it like any other source
         extra[rng.choice(["lib", "layerLib"])] = {"com.github.googlei18n.cu2qu.curve_type": "quadratic"}
-    return {"stratum": stratum, "interp": interp,
+    reuse = None
+    if opts["flattenComponents"] and not interp and rng.random() < 0.3:
+        # flattening requested through a filter OBJECT the caller built once and hands to every
+        # compile of a session: first to a sibling font in which the composites used by other
+        # composites are drawn (or absent), then to this one - the result must be the one a fresh object gives
+        reuse = {"drop": [g["name"] for g in glyphs if is_component_only(g) and rng.random() < 0.3]}
+    return {"stratum": stratum, "interp": interp, "reuse": reuse,
             "ufo": dict({"glyphs": glyphs, "info": {"unitsPerEm": rng.choice([1000, 1000, 2048, 4096]),
                                                     "familyName": "T", "styleName": "R"}}, **extra),
             "lib": rng.choice(["defcon", "ufoLib2"]), "opts": opts, "has_cubic": has_cubic}
@@ -147,6 +154,29 @@ def run(case):
             ttf = list(ufo2ft.compileInterpolatableTTFs(
                 [font, build_ufo(spec, case["lib"])], **kw2))[0]
             bump("interpolatable_path_runs")
+        elif case.get("reuse"):
+            from ufo2ft.filters.flattenComponents import FlattenComponentsFilter
+
+            kw.pop("flattenComponents")
+            objs = [..., FlattenComponentsFilter()]
+            sib = copy.deepcopy(spec)
+            sib["glyphs"] = [g for g in sib["glyphs"] if g["name"] not in case["reuse"]["drop"]]
+            inner = {c["base"] for g in spec["glyphs"] if is_component_only(g)
+                     for c in g["components"]}
+            for g in sib["glyphs"]:
+                # (the composites that other composites refer to are the drawn ones there)
+                if is_component_only(g) and g["name"] in inner:
+                    g["components"] = []
+                    g["contours"] = [[(0, 0, "line"), (100, 0, "line"), (50, 80, "line")]]
+                g["components"] = [c for c in g.get("components", [])
+                                   if c["base"] not in case["reuse"]["drop"]]
+            try:
+                ufo2ft.compileTTF(build_ufo(sib, case["lib"]), filters=list(objs), **kw)
+                bump("filter_objects_first_used_on_a_sibling_font")
+            except Exception:  # noqa: BLE001 - the sibling only warms the filter objects up
+                bump("sibling_font_failed")
+            ttf = ufo2ft.compileTTF(font, filters=list(objs), **kw)
+            bump("compiles_with_reused_filter_objects")
         else:
             ttf = ufo2ft.compileTTF(font, **kw)
         buf = io.BytesIO()
